@@ -18,6 +18,7 @@ PROPERTIES
   T_SubmittedSticky
   T_NoEarlyDiscard
   T_RetryCadence
+  T_BoundedLife
   T_RetryOnlyWhenDue
 CONSTRAINT Finished
 CHECK_DEADLOCK FALSE
